@@ -576,10 +576,23 @@ func main() {
 	events := flag.Int("events", 70, "events per history")
 	out := flag.String("out", "trace.ndjson", "")
 	only := flag.Int("only", -1, "")
+	exh := flag.Int("exh", -1, "exhaustive small-scope exploration: log this many per mille of the transitions (0 = all)")
+	exhmax := flag.Int("exhmax", 0, "expand at most this many states per configuration (0 = all)")
 	flag.Parse()
 	tr, err := sim.NewTrace(*out)
 	if err != nil {
 		panic(err)
+	}
+	if *exh >= 0 {
+		st, trn := 0, 0
+		for _, nosec := range []bool{true, false} {
+			a, b := exhaustive(tr, *seed, *exh, nosec, *exhmax)
+			st += a
+			trn += b
+		}
+		tr.Close()
+		fmt.Printf("{\"histories\":%d,\"events\":%d,\"states\":%d,\"transitions\":%d}\n", trn, tr.Len(), st, trn)
+		return
 	}
 	for i := 0; i < *n; i++ {
 		if *only >= 0 && i != *only {
